@@ -1,20 +1,51 @@
-(* C11.  Property theorems only. *)
-From Coq Require Import List ZArith Bool.
-From BlackIt Require Import Model.Calibrator Proofs.CalibratorP.
+(* C11 — a failing batch leaves the calibrator consistent and reusable.  Property theorems only. *)
+From Coq Require Import List ZArith Bool Arith.
+From BlackIt Require Import Model.Calibrator Proofs.CalibratorP Proofs.CalibStopP Proofs.CalibFaultP.
 Import ListNotations.
 
-Theorem C11_placeholder_one_batch_designated :
+(* An exception injected at ANY invocation index of the model, the loss or a sampler: the records are those of the k
+   batches completed before it, which the fault-free run reaches too and only extends. *)
+Theorem C11_fault_history_is_prefix :
   forall Param Series LossV model lossf loss_leb rounds0 propose draws agent_actions plan,
   (forall s ps ls, length (propose s ps ls) = s_bsize s) ->
-  forall s s' o,
-  one_batch Param Series LossV model lossf loss_leb rounds0 propose draws agent_actions plan s = (s', o) ->
-    (exists e, o = Raised e /\ records _ _ _ (live _ _ _ s') = records _ _ _ (live _ _ _ s) /\ disk _ _ _ s' = disk _ _ _ s /\
-               cfg _ _ _ (live _ _ _ s') = cfg _ _ _ (live _ _ _ s) /\ tbl _ _ _ (live _ _ _ s') = tbl _ _ _ (live _ _ _ s) /\
-               e <> ExValue) \/
-    (exists i sc1 m, next_sampler LossV agent_actions (sch _ _ _ (live _ _ _ s)) = Some (i, sc1) /\
-        nth_error (sched_samplers _ sc1) i = Some m /\
-        appended_batch _ _ _ model lossf draws (live _ _ _ s) (live _ _ _ s') m /\
-        (o = Done \/ o = Converged \/ o = Raised ExValue \/ o = Raised ExOther) /\
-        (disk _ _ _ s' = disk _ _ _ s \/ disk _ _ _ s' = Some (live _ _ _ s'))).
-Proof. exact one_batch_cases. Qed.
-Print Assumptions C11_placeholder_one_batch_designated.
+  forall E0 n s s' e, InvS Param Series LossV model lossf draws E0 s ->
+    batches Param Series LossV model lossf loss_leb rounds0 propose draws agent_actions plan n s = (s', Raised e) -> injected e ->
+    exists k s1, k < n /\ steps Param Series LossV model lossf loss_leb rounds0 propose draws agent_actions NoFault k s s1 /\
+      records _ _ _ (live _ _ _ s') = records _ _ _ (live _ _ _ s1) /\
+      batch_idx _ _ _ (live _ _ _ s1) = batch_idx _ _ _ (live _ _ _ s) + k /\
+      extends _ _ _ (live _ _ _ s1)
+        (live _ _ _ (fst (batches Param Series LossV model lossf loss_leb rounds0 propose draws agent_actions NoFault n s))).
+Proof. exact fault_history_is_prefix. Qed.
+Print Assumptions C11_fault_history_is_prefix.
+
+(* The state after the exception is still aligned (C02's invariant holds in every reachable state, faults included). *)
+Theorem C11_fault_state_aligned :
+  forall Param Series LossV model lossf loss_leb rounds0 propose draws agent_actions plan,
+  (forall s ps ls, length (propose s ps ls) = s_bsize s) ->
+  forall E0 n s s' e r, InvS Param Series LossV model lossf draws E0 s ->
+    calibrate Param Series LossV model lossf loss_leb rounds0 propose draws agent_actions plan n s = (s', e, r) ->
+    InvS Param Series LossV model lossf draws E0 s' /\ extends _ _ _ (live _ _ _ s) (live _ _ _ s').
+Proof. exact calibrate_inv. Qed.
+Print Assumptions C11_fault_state_aligned.
+
+(* Whatever happens inside calibrate() the session is ended: scheduler stopped, no agent thread left ... *)
+Theorem C11_fault_no_thread :
+  forall Param Series LossV model lossf loss_leb rounds0 propose draws agent_actions plan n s s' e r,
+  idle _ (sch _ _ _ (live _ _ _ s)) ->
+  calibrate Param Series LossV model lossf loss_leb rounds0 propose draws agent_actions plan n s = (s', e, r) ->
+  idle _ (sch _ _ _ (live _ _ _ s')).
+Proof. exact calibrate_leaves_idle. Qed.
+Print Assumptions C11_fault_no_thread.
+
+(* ... so the next calibrate() can start its session. *)
+Theorem C11_fault_then_calibrate_ok : forall LossV (sc : sched LossV), idle _ sc -> exists sc', start_session _ sc = inl sc'.
+Proof. exact idle_can_start. Qed.
+Print Assumptions C11_fault_then_calibrate_ok.
+
+(* A plan that does not fire is irrelevant. *)
+Theorem C11_unfired_plan_irrelevant :
+  forall Param Series LossV model lossf loss_leb rounds0 propose draws agent_actions plan s s' o,
+  one_batch Param Series LossV model lossf loss_leb rounds0 propose draws agent_actions plan s = (s', o) -> (o = Done \/ o = Converged) ->
+  one_batch Param Series LossV model lossf loss_leb rounds0 propose draws agent_actions NoFault s = (s', o).
+Proof. exact one_batch_plan_irrelevant. Qed.
+Print Assumptions C11_unfired_plan_irrelevant.
